@@ -22,7 +22,7 @@ func init() {
 		"preemption is possible between any two statements of the instrumented packages (util/queue, util/list, util/dateutil) and inside lock/cond/sleep operations, not inside a single statement",
 		"sync.Mutex/sync.Cond/time.Sleep/time.Now are replaced by simulator models with the documented semantics (no spurious Cond wake-ups, mutex barging allowed)",
 		"a timed get is judged on the millisecond clock the queue itself reads (dateutil.SystemNow)",
-		"SetCapacity is only called in the sequential prologue",
+		"SetCapacity is called at arbitrary points of the sequential prologue history, never concurrently with other calls (concurrently it is a configuration race outside the statement: a SetCapacity(0) landing inside an evicting PutForce makes it spin forever)",
 		"the return value of a forced put that had to evict is unconstrained (the statement does not give it)",
 	}
 	realComponents["C11"] = []string{"util/queue.RequestQueue", "util/queue.RequestDoubleQueue", "util/list.LinkedList", "util/dateutil (clock reads via virtual clock)"}
@@ -155,21 +155,31 @@ func c11Body(double bool) func(rc *RunCtx) {
 		// sequential prologue: optional pre-fill, optional capacity lowering
 		rootID := simrt.Cur().ID
 		if simrt.Chance(1, 3) {
-			n := 1 + simrt.Choose(5)
+			// a sequential history of mixed calls, set-capacity included (the statement quantifies
+			// over set-capacity calls inside sequences; concurrently with other calls it is a
+			// configuration race outside the statement)
+			n := 1 + simrt.Choose(8)
 			for i := 0; i < n; i++ {
-				nextElem++
 				w := 1
 				if double && simrt.Chance(1, 2) {
 					w = 2
 				}
-				op := d.begin(rootID, "put"+qsuffix(double, w), nextElem, "prologue")
-				d.end(op, b2i(api.put(w, nextElem)))
-			}
-			if simrt.Chance(1, 2) {
-				lower := []int{2, 1, 3}[simrt.Choose(3)]
-				if d.Cap1 == 0 || lower < d.Cap1 {
-					op := d.begin(rootID, "setcap", lower, "prologue")
-					setCap(lower, lower)
+				switch simrt.Choose(8) {
+				case 0, 1, 2, 3:
+					nextElem++
+					op := d.begin(rootID, "put"+qsuffix(double, w), nextElem, "prologue")
+					d.end(op, b2i(api.put(w, nextElem)))
+				case 4:
+					nextElem++
+					op := d.begin(rootID, "putforce"+qsuffix(double, w), nextElem, "prologue")
+					d.end(op, b2i(api.putForce(w, nextElem)))
+				case 5:
+					op := d.begin(rootID, "getnowait", 0, "prologue")
+					d.end(op, elem(api.getNoW()))
+				case 6, 7:
+					c := []int{2, 1, 3, 0, 5}[simrt.Choose(5)]
+					op := d.begin(rootID, "setcap", c, "prologue")
+					setCap(c, c)
 					d.end(op, 0)
 				}
 			}
@@ -210,7 +220,9 @@ func c11Body(double bool) func(rc *RunCtx) {
 			for i := 0; i < n; i++ {
 				var k string
 				arg := 0
-				switch simrt.Choose(8) {
+				switch simrt.Choose(9) {
+				case 8:
+					k = "getnowait"
 				case 0, 1, 2:
 					k = "get"
 				case 3, 4:
@@ -262,6 +274,9 @@ func c11Body(double bool) func(rc *RunCtx) {
 						d.end(op, elem(api.getTO(pl.arg[i])))
 					case "clear":
 						api.clear()
+						d.end(op, 0)
+					case "setcap":
+						setCap(pl.arg[i], pl.arg[i])
 						d.end(op, 0)
 					}
 				}
